@@ -27,6 +27,8 @@ pub struct ReadProblem {
     pub wf_errors: Vec<String>,
     /// every formula could be read (a problem that is merely ill-formed, e.g. has no conjecture, is still evaluated)
     pub readable: bool,
+    /// declared predicates (name, arity) other than the preamble's
+    pub preds: Vec<(String, usize)>,
 }
 
 static COUNTER: std::sync::atomic::AtomicUsize = std::sync::atomic::AtomicUsize::new(0);
@@ -67,7 +69,7 @@ pub fn run_verify(flags: &[&str], files: &[(&str, &str)]) -> Result<(i32, String
 
 pub fn read_problem(file: &str, text: &str) -> ReadProblem {
     match tff::parse(text) {
-        Err(e) => ReadProblem { file: file.into(), formulas: vec![], wf_errors: vec![format!("not valid TFF: {e}")], readable: false },
+        Err(e) => ReadProblem { file: file.into(), formulas: vec![], wf_errors: vec![format!("not valid TFF: {e}")], readable: false, preds: vec![] },
         Ok(p) => {
             let (sig, mut errs) = p.check();
             let mut formulas = Vec::new();
@@ -77,7 +79,8 @@ pub fn read_problem(file: &str, text: &str) -> ReadProblem {
                     match sig.read(f, &mut Vec::new()) { Ok(g) => formulas.push((e.name.clone(), e.role.clone(), cheapest_first(&g))), Err(m) => { readable = false; errs.push(format!("{}: {m}", e.name)) } }
                 }
             }
-            ReadProblem { file: file.into(), formulas, wf_errors: errs, readable }
+            let preds = p.entries.iter().filter_map(|e| match &e.decl { Some((n, tff::Decl::Pred(a))) if !n.starts_with("p__") => Some((n.clone(), a.len())), _ => None }).collect();
+            ReadProblem { file: file.into(), formulas, wf_errors: errs, readable, preds }
         }
     }
 }
@@ -195,7 +198,7 @@ pub fn check_pair(left: &str, right: &str, flag_sets: &[&[&str]], n_interp: usiz
         all.extend(flags.iter());
         let what = format!("anthem verify {} {input}", all.join(" "));
         let (rc, err, problems) = match run_verify(&all, &[("a.lp", left), ("b.lp", right)]) { Ok(x) => x, Err(e) => { fails.push(Failure { property: "harness", input: what, detail: e }); return; } };
-        if rc != 0 || problems.is_empty() {
+        if rc != 0 {
             fails.push(Failure { property: "C03", input: what, detail: format!("exit status {rc}, {} problems: {}", problems.len(), err.lines().take(3).collect::<Vec<_>>().join(" / ")) });
             continue;
         }
